@@ -189,6 +189,59 @@ macro_rules! piggyback {
     }};
 }
 
+/// C01's batch-construction cases with coordinates pushed to extreme (still finite) magnitudes:
+/// every point, or a generated subset, is multiplied by 2^k with |k| up to 1000, so that squared
+/// distances and determinants overflow or underflow inside the construction paths.
+pub fn extreme_batch_strategy(dim: usize) -> BoxedStrategy<super::c01::Case> {
+    (super::c01::case_strategy(dim, false), prop_oneof![Just(520i32), Just(600), Just(900), Just(1000), Just(-520), Just(-900), Just(-1040), 100i32..=1000, -1000i32..=-100], any::<u16>(), 0u8..4)
+        .prop_map(|(mut c, k, mask, mode)| {
+            let f = 2f64.powi(k.clamp(-1022, 1000));
+            let n = c.points.pts.len();
+            for (i, p) in c.points.pts.iter_mut().enumerate() {
+                let hit = match mode {
+                    0 => true,                          // everything
+                    1 => i == (mask as usize) % n.max(1), // a single outlier
+                    2 => mask & (1 << (i % 16)) != 0,   // a subset
+                    _ => i % 2 == 0,
+                };
+                if hit {
+                    for x in p.iter_mut() {
+                        let y = *x * f;
+                        // keep the input finite: that is the property's domain
+                        *x = if y.is_finite() { y } else { f64::MAX.copysign(*x) / 4.0 };
+                    }
+                }
+            }
+            c.points.family = format!("extreme_2^{k}_mode{mode}");
+            c
+        })
+        .boxed()
+}
+
+/// C16's toroidal cases with periods and points scaled together by a huge power of two.
+pub fn extreme_toroidal_strategy(periodic: bool) -> BoxedStrategy<super::c16::Case> {
+    (super::c16::strategy(2, periodic, false), prop_oneof![Just(520i32), Just(540), Just(600), Just(900), Just(-520), Just(-900), 100i32..=960, -960i32..=-100])
+        .prop_map(|(mut c, k)| {
+            let f = 2f64.powi(k);
+            for l in c.periods.iter_mut() {
+                let y = *l * f;
+                if y.is_finite() && y > 0.0 {
+                    *l = y;
+                }
+            }
+            for p in c.pts.iter_mut().chain(c.inserts.iter_mut()) {
+                for x in p.iter_mut() {
+                    let y = *x * f;
+                    if y.is_finite() {
+                        *x = y;
+                    }
+                }
+            }
+            c
+        })
+        .boxed()
+}
+
 pub fn run_shard(ctx: &mut Ctx) {
     let thorough = ctx.tier == Tier::Thorough;
     let max_ops = if thorough { 40 } else { 14 };
@@ -218,6 +271,11 @@ pub fn run_shard(ctx: &mut Ctx) {
         piggyback!(ctx, &format!("pb_c13_d{dim}"), 60 * f, super::c13::strategy(dim, 6), super::c13::exec);
         piggyback!(ctx, &format!("pb_c15_d{dim}"), 100 * f, super::c15::strategy(dim, 10), super::c15::exec);
     }
+    for dim in 2..=5usize {
+        piggyback!(ctx, &format!("pb_c01x_d{dim}"), if dim <= 3 { 300 } else { 120 } * f, extreme_batch_strategy(dim), super::c01::exec);
+    }
+    piggyback!(ctx, "pb_c16x_d2", 150 * f, extreme_toroidal_strategy(false), super::c16::exec);
+    piggyback!(ctx, "pb_c16x_d2p", 150 * f, extreme_toroidal_strategy(true), super::c16::exec);
     piggyback!(ctx, "pb_c16_d2", 200 * f, super::c16::strategy(2, false, false), super::c16::exec);
     piggyback!(ctx, "pb_c16_d2p", 100 * f, super::c16::strategy(2, true, false), super::c16::exec);
     piggyback!(ctx, "pb_c10_d3", 40 * f, super::c10::strategy(3, thorough), super::c10::exec);
@@ -264,7 +322,7 @@ pub fn meta() -> super::Meta {
     super::Meta {
         id: ID,
         level: "exploration",
-        rule: "(A) adversarial stateful generator: start state (empty, constructed, scaled by 2^-6..2^3) + up to 14 (quick) / 40 (thorough) operations drawn from every mutating API with stale / forged / null / out-of-range handles (top 1/256 of every selector, facet indices 250-255), duplicate and dead UUIDs, state-relative degenerate points, coordinates m*2^(8e) up to 2^960, and NaN / +-inf vertices built with Point::new; after every third step all read APIs are called with forged vertex and cell keys, locate is driven with extreme queries and every hint (walk bounded by 10000 + cells), the validators and reports are run, and a ConvexHull and AdjacencyIndex of an unrelated triangulation are used against the state; every call runs under catch_unwind (a panic located in the library is a violation in either build profile) and a per-case wall-clock watchdog (exit 2, never a violation); after a non-finite insertion attempt no vertex may be non-finite; (B) the generators of C01, C06-C11, C13, C15, C16 are re-run with only the panic / watchdog monitor; evaluations = operations + API pokes; non-trivial = history with >= 1 adversarial handle, extreme or non-finite coordinate; distinct by the whole case",
+        rule: "(A) adversarial stateful generator: start state (empty, constructed, scaled by 2^-6..2^3) + up to 14 (quick) / 40 (thorough) operations drawn from every mutating API with stale / forged / null / out-of-range handles (top 1/256 of every selector, facet indices 250-255), duplicate and dead UUIDs, state-relative degenerate points, coordinates m*2^(8e) up to 2^960, and NaN / +-inf vertices built with Point::new; after every third step all read APIs are called with forged vertex and cell keys, locate is driven with extreme queries and every hint (walk bounded by 10000 + cells), the validators and reports are run, and a ConvexHull and AdjacencyIndex of an unrelated triangulation are used against the state; every call runs under catch_unwind (a panic located in the library is a violation in either build profile) and a per-case wall-clock watchdog; after a non-finite insertion attempt no vertex may be non-finite; (B) the generators of C01, C06-C11, C13, C15, C16 are re-run with only the panic / watchdog monitor, and C01's batch cases (every option combination incl. the Balanced initial simplex) and C16's toroidal cases are also run with coordinates / periods multiplied by 2^k, |k| up to 1000 (all points, one outlier, or a subset), so that squared distances and determinants overflow; a case that exceeds the per-case watchdog is replayed alone in a fresh process and reported as a violation (no_return) only if it does not return there within 300 s either; evaluations = operations + API pokes; non-trivial = history with >= 1 adversarial handle, extreme or non-finite coordinate; distinct by the whole case",
         assumptions: &[
             "termination is observed through the public work statistics (locate walk_steps, insertion attempts) plus the watchdog; the hook-based work counters planned in DESIGN 1.1 were not built",
             "the *_with_index accessors debug_assert that the index belongs to the triangulation (documented precondition): foreign indices are exercised only in the release profile",
